@@ -617,6 +617,9 @@ def bad_value(kind):
     if kind == "reduce":
         import cli_types
         return cli_types.RaisesOnReduce()
+    if kind.startswith("getstate_"):
+        import cli_types
+        return getattr(cli_types, "RaisesOnGetstate_" + kind[len("getstate_"):])()
     if kind == "dok":
         import scipy.sparse as sp
         return sp.dok_matrix((2, 2))
